@@ -127,7 +127,7 @@ func runGenCase(id string, idx int, gc genCase) J {
 	v := gc.version
 	codec := codecFor(gc.comp)
 	rec := J{"id": id, "kind": gc.kind, "version": int(v), "compression": gc.comp, "flags": int(f.Header.Flags),
-		"phase": gc.phase, "variant": gc.class, "class": "", "response": f.Header.IsResponse, "stream": int(f.Header.StreamId), "opcode": int(f.Header.OpCode)}
+		"phase": gc.phase, "valid": !gc.invalid, "variant": gc.class, "class": "", "response": f.Header.IsResponse, "stream": int(f.Header.StreamId), "opcode": int(f.Header.OpCode)}
 	rec["frame"] = hlib.CoqTerm(f)
 	rec["deterministic"] = hlib.CoqDeterministic(f)
 	checks := J{}
@@ -202,8 +202,15 @@ func runGenCase(id string, idx int, gc genCase) J {
 	}
 
 	// known finding of the pinned LZ4 dependency: tag every body in which some 4-byte window repeats at distance 65536
-	if repeatsAt65536(rawBody) {
-		rec["class"] = "lz4-offset-65536"
+	// (on the body as the encoder produces it before compression: the emitted one may already be corrupted)
+	if emitted+len(rawBody) >= 65540 {
+		h := *f.Header
+		h.Flags = h.Flags.Remove(primitive.HeaderFlagCompressed)
+		plain := &bytes.Buffer{}
+		var err error
+		if p, _ := guard(func() { err = codecFor("none").EncodeBody(&h, f.Body, plain) }); !p && err == nil && repeatsAt65536(plain.Bytes()) {
+			rec["class"] = "lz4-offset-65536"
+		}
 	}
 
 	// message EncodedLength = emitted message bytes
@@ -221,7 +228,7 @@ func runGenCase(id string, idx int, gc genCase) J {
 		if f.Header.Flags.Contains(primitive.HeaderFlagCustomPayload) {
 			prefix += primitive.LengthOfBytesMap(f.Body.CustomPayload)
 		}
-		if f.Header.Flags.Contains(primitive.HeaderFlagWarning) {
+		if f.Header.Flags.Contains(primitive.HeaderFlagWarning) && f.Header.IsResponse {
 			prefix += primitive.LengthOfStringList(f.Body.Warnings)
 		}
 		if len(rawBody) != prefix+encLen {
@@ -229,8 +236,8 @@ func runGenCase(id string, idx int, gc genCase) J {
 		}
 	}
 
-	// decode
-	dec, consumed, doc, dw := decodeFrame(codec, append(append([]byte{}, enc...), trailer...))
+	// decode: one DecodeFrame of exactly the record's own bytes gives decode / decoded / consumed
+	dec, consumed, doc, dw := decodeFrame(codec, enc)
 	rec["decode"] = doc
 	rec["consumed"] = consumed
 	if doc != "ok" {
@@ -253,9 +260,16 @@ func runGenCase(id string, idx int, gc genCase) J {
 	} else if int(dec.Header.BodyLength) != emitted {
 		fail("roundtrip_equal", fmt.Sprintf("decoded BodyLength %d, emitted %d", dec.Header.BodyLength, emitted))
 	}
+	// (a second decode, with bytes following the frame: the decoder must stop at the end of the frame)
 	checks["consumed_equal"] = true
 	if consumed != len(enc) {
 		fail("consumed_equal", fmt.Sprintf("DecodeFrame consumed %d of %d bytes", consumed, len(enc)))
+	} else if dec2, c2, oc2, w2 := decodeFrame(codec, append(append([]byte{}, enc...), trailer...)); oc2 != "ok" {
+		fail("consumed_equal", "decode with trailing bytes "+oc2+": "+w2)
+	} else if c2 != len(enc) {
+		fail("consumed_equal", fmt.Sprintf("DecodeFrame with trailing bytes consumed %d of %d bytes", c2, len(enc)))
+	} else if d := frameEquiv(dec, dec2); d != "" {
+		fail("consumed_equal", "decode with trailing bytes differs: "+d)
 	}
 
 	// stream: three frames back to back, nothing left over
